@@ -167,6 +167,19 @@ impl<A: Array<Item = u64> + Copy + Eq + Ord + Hash> Vmer for Lmer<A> {
     }
 }
 
+#[cfg(feature = "verif_hooks")]
+impl<A: Array> Lmer<A> {
+    /// Verification hook: build an `Lmer` directly from its raw storage.
+    pub fn verif_from_raw(storage: A) -> Lmer<A> {
+        Lmer { storage }
+    }
+
+    /// Verification hook: inspect the raw storage.
+    pub fn verif_raw(&self) -> &A {
+        &self.storage
+    }
+}
+
 impl<A: Array<Item = u64> + Copy + Eq + Ord + Hash> fmt::Debug for Lmer<A> {
     fn fmt(&self, f: &mut fmt::Formatter<'_>) -> fmt::Result {
         let mut s = String::new();
